@@ -159,7 +159,9 @@ class Server(object):
         self.have_rcptto = None
 
     def _encrypt_session(self):
-        if not self.io.encrypt_socket_server(self.context):
+        with Timeout(self.command_timeout):
+            encrypted = self.io.encrypt_socket_server(self.context)
+        if not encrypted:
             return False
         self._call_custom_handler('TLSHANDSHAKE')
         self._call_custom_handler('TLSHANDSHAKE2', self.io.socket)
@@ -189,7 +191,11 @@ class Server(object):
 
         """
         if self.context and self.tls_immediately:
-            if not self._encrypt_session():
+            try:
+                encrypted = self._encrypt_session()
+            except Timeout:
+                encrypted = False
+            if not encrypted:
                 tls_failure.send(self.io, flush=True)
                 return
 
